@@ -1348,3 +1348,101 @@ Proof.
     rewrite (final_no_holds c q Hf Hs) in B. lia.
   - rewrite getq_oob by auto. reflexivity.
 Qed.
+
+(* ------------------------------------------------------------------------- *)
+(* the same facts stated over reachable configurations (as used by C04.v)    *)
+(* ------------------------------------------------------------------------- *)
+
+Lemma reachable_Q_inv c0 c :
+  initial c0 -> reachable c0 c -> forall q, q < length (queues c) -> Q_inv c q.
+Proof. intros Hi Hr. exact (proj2 (reachable_inv _ _ Hi Hr)). Qed.
+
+Lemma initial_open c0 q : initial c0 -> qclosed (getq c0 q) = false /\ qtok (getq c0 q) = 0.
+Proof.
+  intros [[caps Hq] _]. unfold getq. rewrite Hq. change dummyq with (mkq 0).
+  rewrite map_nth. split; reflexivity.
+Qed.
+
+Lemma r_pop_step c0 c t c' qa :
+  initial c0 -> reachable c0 c -> at_pop c t qa -> step c t = Some c' ->
+  exists v vs,
+    qvals (getq c qa) = v :: vs /\ qvals (getq c' qa) = vs /\
+    qpop (getq c' qa) = qpop (getq c qa) ++ [v] /\
+    qapp (getq c' qa) = qapp (getq c qa) /\
+    qtok (getq c' qa) = qtok (getq c qa) /\
+    tres (gett c' t) = tres (gett c t) ++ [RHead v true] /\
+    tph (gett c' t) = PIdle /\
+    (forall q0, q0 <> qa -> getq c' q0 = getq c q0).
+Proof. intros Hi Hr. apply pop_step. eapply reachable_inv2; eauto. Qed.
+
+Lemma r_fifo_realtime_pop c0 c1 t1 c1' q s t2 c2' :
+  initial c0 -> reachable c0 c1 -> at_pop c1 t1 q -> step c1 t1 = Some c1' ->
+  at_pop (run c1' s) t2 q -> step (run c1' s) t2 = Some c2' ->
+  exists v w l1 l2,
+    qpop (getq c2' q) = l1 ++ [v] ++ l2 ++ [w] /\
+    (exists r, tres (gett c1' t1) = r ++ [RHead v true]) /\
+    (exists r, tres (gett c2' t2) = r ++ [RHead w true]).
+Proof. intros Hi Hr. apply fifo_realtime_pop. eapply reachable_inv2; eauto. Qed.
+
+Lemma r_stuck_only_by c0 c t c' :
+  initial c0 -> reachable c0 c -> step c t = Some c' -> tph (gett c' t) = PStuck ->
+  (exists q v rest, tph (gett c t) = PSend q /\ tcalls (gett c t) = CAdd q v :: rest /\
+                    qclosed (getq c q) = true) \/
+  (exists q rest, tph (gett c t) = PIdle /\ tcalls (gett c t) = CClose q :: rest /\
+                  qclosed (getq c q) = true).
+Proof. intros Hi Hr. apply stuck_only_by. eapply reachable_inv2; eauto. Qed.
+
+Lemma r_no_pop_panic c0 c t c' qa :
+  initial c0 -> reachable c0 c -> step c t = Some c' ->
+  tph (gett c t) = PPop qa \/ tph (gett c t) = PDiscard qa ->
+  tph (gett c' t) <> PStuck.
+Proof. intros Hi Hr. apply no_pop_panic. eapply reachable_inv2; eauto. Qed.
+
+Lemma r_ok_false_drained c0 c t c' v q rest :
+  initial c0 -> reachable c0 c -> step c t = Some c' ->
+  tres (gett c' t) = tres (gett c t) ++ [RHead v false] ->
+  tcalls (gett c t) = CRemoveHead q :: rest -> q < length (queues c) ->
+  length (qvals (getq c q)) =
+    cnt (in_send q) (threads c) + cnt (in_pop q) (threads c) +
+    cnt (in_disc q) (threads c) + cnt (orphan q) (threads c).
+Proof. intros Hi Hr. apply ok_false_drained. eapply reachable_inv; eauto. Qed.
+
+Lemma r_size_step c0 c t c' n :
+  initial c0 -> reachable c0 c -> step c t = Some c' ->
+  tres (gett c' t) = tres (gett c t) ++ [RSize n] ->
+  exists q rest, tcalls (gett c t) = CGetSize q :: rest /\
+    n = qtok (getq c q) /\ n <= qcap (getq c q).
+Proof. intros Hi Hr. apply size_step. eapply reachable_inv; eauto. Qed.
+
+Lemma r_array_step c0 c t c' l :
+  initial c0 -> reachable c0 c -> step c t = Some c' ->
+  tres (gett c' t) = tres (gett c t) ++ [RArray l] ->
+  exists q rest, tcalls (gett c t) = CAsArray q :: rest /\
+    l = qvals (getq c q) /\ qapp (getq c q) = qpop (getq c q) ++ l.
+Proof. intros Hi Hr. apply array_step. eapply reachable_inv; eauto. Qed.
+
+Lemma r_ok_true_step c0 c t c' va :
+  initial c0 -> reachable c0 c -> step c t = Some c' ->
+  tres (gett c' t) = tres (gett c t) ++ [RHead va true] ->
+  exists q vs, tph (gett c t) = PPop q /\ qvals (getq c q) = va :: vs /\
+    qvals (getq c' q) = vs /\ qpop (getq c' q) = qpop (getq c q) ++ [va].
+Proof. intros Hi Hr. apply ok_true_step. eapply reachable_inv2; eauto. Qed.
+
+Lemma r_removeall_step c0 c t c' qa rest0 :
+  initial c0 -> reachable c0 c -> step c t = Some c' ->
+  tcalls (gett c t) = CRemoveAll qa :: rest0 ->
+  (forall q0, qcap (getq c' q0) = qcap (getq c q0) /\
+              qclosed (getq c' q0) = qclosed (getq c q0) /\
+              qapp (getq c' q0) = qapp (getq c q0)) /\
+  (forall q0, q0 <> qa -> getq c' q0 = getq c q0) /\
+  ( (tph (gett c t) = PIdle /\ qtok (getq c qa) = 0 /\
+     c' = sett c t (finish (gett c t) rest0 RCleared))
+    \/ (tph (gett c t) = PIdle /\ 0 < qtok (getq c qa) /\
+        qtok (getq c' qa) = qtok (getq c qa) - 1 /\ qvals (getq c' qa) = qvals (getq c qa) /\
+        qpop (getq c' qa) = qpop (getq c qa) /\
+        tph (gett c' t) = PDiscard qa /\ tcalls (gett c' t) = tcalls (gett c t))
+    \/ (tph (gett c t) = PDiscard qa /\
+        exists v vs, qvals (getq c qa) = v :: vs /\ qvals (getq c' qa) = vs /\
+          qpop (getq c' qa) = qpop (getq c qa) ++ [v] /\ qtok (getq c' qa) = qtok (getq c qa) /\
+          tph (gett c' t) = PIdle /\ tcalls (gett c' t) = tcalls (gett c t)) ).
+Proof. intros Hi Hr. apply removeall_step. eapply reachable_inv2; eauto. Qed.
